@@ -502,7 +502,7 @@ func init() {
 			workerSet := []int{1, 4, 6, 10, 18}
 			procSet := []int{1, 2, 4, 16}
 			blocks := []int{1, 2, 10, 41}
-			nseeds := l.N(3, 12)
+			nseeds := l.N(3, 30)
 			for _, b := range blocks {
 				for _, w := range workerSet {
 					for s := 0; s < nseeds; s++ {
@@ -535,11 +535,11 @@ func init() {
 				l.Add("merge-error", c16Params{Pipeline: "merge-error", Procs: 2, FailAt: fa + 1}, 0)
 				l.Add("diff-error", c16Params{Pipeline: "diff-error", Procs: 4, FailAt: fa}, 0)
 			}
-			for i := 0; i < l.N(12, 120); i++ {
+			for i := 0; i < l.N(12, 300); i++ {
 				l.Add("diff", c16Params{Pipeline: "diff", Blocks: 2 + rng.Intn(3), Procs: procSet[rng.Intn(4)], Yield: uint64(1 + rng.Intn(1<<30))}, 0)
 				l.Add("merge", c16Params{Pipeline: "merge", Blocks: 2 + rng.Intn(2), Procs: procSet[rng.Intn(4)], Yield: uint64(1 + rng.Intn(1<<30))}, 0)
 			}
-			for i := 0; i < l.N(4, 30); i++ {
+			for i := 0; i < l.N(4, 80); i++ {
 				l.Add("cli", c16Params{Pipeline: "cli", Blocks: 3 + rng.Intn(8), Workers: []int{4, 6, 10}[rng.Intn(3)], Procs: procSet[1+rng.Intn(3)], Yield: uint64(1 + rng.Intn(1<<30))}, 0)
 			}
 			return l.Cases
